@@ -373,7 +373,7 @@ func runC04(c *fw.Ctx) {
 	// returns / fails / panics: whatever the body's goroutine does afterwards must not panic into the host
 	// bound through lib/call like every builtin (the binder's recover is part of the path under test)
 	call.CallOverrideFN(base, "c04-slow!", func(a ...types.MalType) (types.MalType, error) {
-		time.Sleep(2 * time.Millisecond)
+		time.Sleep(4 * time.Millisecond)
 		if len(a) > 0 {
 			if s, ok := a[0].(string); ok && s == "err" {
 				return nil, errors.New("slow failed")
@@ -393,6 +393,13 @@ func runC04(c *fw.Ctx) {
 		"(let (f (future (throw {:a 1}))) (try @f (catch e (list e (future-cancel f) (try @f (catch e2 e2))))))",
 		"(let (f (future (c04-slow!))) (future-cancel f) (future-done? f))",
 		"(do (future (c04-slow! \"panic\")) (future (c04-slow! \"err\")) nil)",
+		// the same with the body given time to get inside the slow builtin before it is cancelled (on a loaded machine a
+		// cancel issued at once can land before the body's thread has started, and then nothing of the body runs)
+		"(let (f (future (c04-slow!))) (sleep 1) (future-cancel f) (try @f (catch e e)))",
+		"(let (f (future (c04-slow! \"err\"))) (sleep 1) (future-cancel f) (try @f (catch e e)))",
+		"(let (f (future (c04-slow! \"panic\"))) (sleep 1) (future-cancel f) (try @f (catch e e)))",
+		"(let (f (future (do (c04-slow!) (c04-slow!)))) (sleep 1) (future-cancel f) (future-cancel f) (future-done? f))",
+		"(let (f (future (c04-slow!))) (sleep 1) (future-cancel f) (future-done? f))",
 	}
 	for fi, src := range futProgs {
 		for rep := 0; rep < c.Pick(4, 40); rep++ {
@@ -407,7 +414,7 @@ func runC04(c *fw.Ctx) {
 			}
 			c04Run(c, base, fmt.Sprintf("futcancel-%d-%d", fi, rep), ast, src, "future-cancel", false)
 			// give the body goroutines time to finish inside this case's START/END window
-			c.Case(fmt.Sprintf("futcancel-%d-%d-settle", fi, rep), src+" ; (bodies finishing)", func() { time.Sleep(12 * time.Millisecond) })
+			c.Case(fmt.Sprintf("futcancel-%d-%d-settle", fi, rep), src+" ; (bodies finishing)", func() { time.Sleep(20 * time.Millisecond) })
 			c.Count("kind.future-cancel", 1)
 		}
 	}
